@@ -200,17 +200,18 @@ def substitute_entity(
     match: re.Match[str],
     n2cp: Mapping[str, int] = _name2codepoint
 ) -> str:
-    ent = match.group(3)
+    # (a leading "x" is part of a name - "&xi;" - and marks a
+    # hexadecimal character reference, in either case)
+    ent = match.group(2) + match.group(3)
 
     if match.group(1) == "#":
-        if match.group(2) == '':
+        try:
+            if ent[:1] in ('x', 'X'):
+                return chr(int(ent[1:], 16))
             return chr(int(ent))
-        elif match.group(2) == 'x':
-            return chr(int('0x' + ent, 16))
-        else:
-            # FIXME: This should be unreachable, so we can
-            #        try raising an AssertionError instead
-            return ''
+        except (ValueError, OverflowError):
+            # not a character reference: the text is left as it is
+            return match.group()
     else:
         cp = n2cp.get(ent)
 
